@@ -60,8 +60,10 @@ def spec_sets(w, p, estimands):
     zero = z3.If(bw >= 0, bw, -bw) <= z3.RealVal("1e-8")  # np.isclose(x, 0)
     tf = c["turnout_factor"]
     cand = z3.And(inData, pev >= thr)  # reporting candidates
-    # the outlier models are fitted on (and enabled by the number of) reporting candidates that are not blocklisted
-    n_cand = frames.count_of(w.root, z3.And(cand, z3.Not(blk)))
+    # the outlier models are fitted on (and enabled by the number of) reporting candidates that are neither blocklisted
+    # nor zero-baseline (the statement says "an enabled outlier model" and leaves the count to the implementation; since
+    # the repair of F14 the excluded units are out of that frame)
+    n_cand = frames.count_of(w.root, z3.And(cand, z3.Not(blk), z3.Not(zero)))
     en_t = z3.And(p["fit_t"].t, n_cand > 20)
     en_m = z3.And(p["fit_m"].t, n_cand > 20) if "margin" in estimands else z3.BoolVal(False)
     strange = z3.Or(tf <= p["lo"].t, tf >= p["hi"].t)
@@ -97,7 +99,9 @@ def _units(prop_est, name):
         def rp(ev):
             """the generic unit of the counter-model as a real one-unit election (plus fillers), expected placement
             computed from the statement's rules evaluated in the model"""
-            many = ev(frames.count_of(w.root, z3.And(cand_, z3.Not(blk_)))) > 20
+            bw_ = w.cols["baseline_weights"]
+            zero_ = z3.If(bw_ >= 0, bw_, -bw_) <= z3.RealVal("1e-8")
+            many = ev(frames.count_of(w.root, z3.And(cand_, z3.Not(blk_), z3.Not(zero_)))) > 20
             unit_ = {"inData": ev(w.inData(u_)), "inFeed": ev(w.inFeed(u_)) or not ev(w.inData(u_)), "pev": float(ev(w.cols["percent_expected_vote"])), "bw": float(ev(w.cols["baseline_weights"])), "tf": float(ev(w.cols["turnout_factor"]))}
             exp_where = [k for k, t_ in (("reporting", rep), ("nonreporting", nonrep), ("third", third_spec)) if ev(t_)]
             cat = None
